@@ -1045,3 +1045,52 @@ Proof.
     rewrite <- (sort_pairs_perm (combine xs ys)), <- (sort_pairs_perm (combine xs' ys')). exact P. }
   unfold loess. rewrite (prepare_canonical xs ys Hl Hd), (prepare_canonical xs' ys' Hl' Hd'), ES, Hn. reflexivity.
 Qed.
+
+(* ====================================================================== *)
+(* uniqueness of the minimiser; dependence on the window only              *)
+(* ====================================================================== *)
+(* two solutions of the normal equations give the same fitted value at every observation of positive
+   weight; hence they coincide when the columns are independent on those observations *)
+Theorem lls_unique n cols w y beta1 beta2 :
+  wf_design n cols w y -> (forall i, (i < n)%nat -> 0 <= vn w i) ->
+  length beta1 = length cols -> length beta2 = length cols ->
+  Forall2 Qeq (mat_vec (normal_lhs cols w) beta1) (normal_rhs cols w y) ->
+  Forall2 Qeq (mat_vec (normal_lhs cols w) beta2) (normal_rhs cols w y) ->
+  (forall i, (i < n)%nat -> 0 < vn w i -> fit_at cols beta1 i == fit_at cols beta2 i) /\
+  ((forall delta : nat -> Q,
+      (forall i, (i < n)%nat -> 0 < vn w i -> sum_n (fun j => delta j * Xe cols j i) (length cols) == 0) ->
+      forall j, (j < length cols)%nat -> delta j == 0) ->
+   Forall2 Qeq beta1 beta2).
+Proof.
+  intros Hwf Hw H1 H2 N1 N2.
+  pose proof (proj1 (normal_eq_orth n cols w y Hwf beta1 H1) N1) as O1.
+  pose proof (proj1 (normal_eq_orth n cols w y Hwf beta2 H2) N2) as O2. clear N1 N2. rename O1 into N1. rename O2 into N2.
+  pose proof (SSR_expand n cols w y Hwf beta1 beta2) as E12.
+  pose proof (SSR_expand n cols w y Hwf beta2 beta1) as E21.
+  rewrite (sum_n_ext _ (fun _ => 0)) in E12 by (intros j Hj; rewrite (N1 j Hj); ring).
+  rewrite (sum_n_ext _ (fun _ => 0)) in E21 by (intros j Hj; rewrite (N2 j Hj); ring).
+  rewrite sum_n_zero in E12, E21.
+  pose proof (quad_nonneg n cols w Hw beta1 beta2) as Q12. pose proof (quad_nonneg n cols w Hw beta2 beta1) as Q21.
+  assert (Z : sum_n (fun i => vn w i * (dfit cols beta1 beta2 i * dfit cols beta1 beta2 i)) n == 0) by lra.
+  assert (D : forall i, (i < n)%nat -> 0 < vn w i -> dfit cols beta1 beta2 i == 0).
+  { intros i Hi Hp.
+    assert (E : vn w i * (dfit cols beta1 beta2 i * dfit cols beta1 beta2 i) == 0).
+    { apply (sum_n_zero_terms (fun i => vn w i * (dfit cols beta1 beta2 i * dfit cols beta1 beta2 i)) n); [|exact Z|exact Hi].
+      intros l Hl. apply Qmult_le_0_compat; [now apply Hw|]. generalize (dfit cols beta1 beta2 l). intros q. nra. }
+    apply Qmult_integral in E as [E|E]; [lra|]. apply Qmult_integral in E as [E|E]; exact E. }
+  split.
+  - intros i Hi Hp. specialize (D i Hi Hp). unfold dfit in D. unfold fit_at.
+    assert (S : sum_n (fun j => vn beta2 j * Xe cols j i) (length cols) ==
+                sum_n (fun j => vn beta1 j * Xe cols j i) (length cols) + sum_n (fun j => (vn beta2 j - vn beta1 j) * Xe cols j i) (length cols)).
+    { rewrite <- sum_n_add. apply sum_n_ext. intros j Hj. ring. }
+    rewrite S, D. ring.
+  - intros Hind. apply Forall2_Qeq_vn. split; [now rewrite H1, H2|]. intros j Hj. rewrite H1 in Hj.
+    specialize (Hind (fun j => vn beta2 j - vn beta1 j) D j Hj). cbv beta in Hind. lra.
+Qed.
+
+(* the value of the LOESS closure is a function of the window alone *)
+Theorem loess_depends_only_on_window sx sy sx' sy' deg q n0 q' n0' x :
+  firstn q (skipn n0 sx) = firstn q' (skipn n0' sx') ->
+  firstn q (skipn n0 sy) = firstn q' (skipn n0' sy') ->
+  loess_at sx sy deg q n0 x = loess_at sx' sy' deg q' n0' x.
+Proof. intros Ex Ey. unfold loess_at, loess_design. now rewrite Ex, Ey. Qed.
